@@ -19,20 +19,25 @@ MANIFEST = dict(
         "end to end with the modelled nonDominatedSort and front end for m != 4; k-smallest/k-largest selection returns min(k,n) sorted pairs dominating the rest, "
         "the first being an arg-min/arg-max (every outcome of the unstable sort); HypervolumeSubsetSelection2D model: the deque upper envelope equals the running maximum, "
         "the dynamic programme value equals the best chain area = hvSpec, back-tracking + fill-up return exactly k points of maximal hypervolume among all sub-lists of at "
-        "most k points (operator-level theorem for the intended lexicographic comparator; the comparator of the C++ is regenerated from the source on every run). "
+        "most k points; operator-level theorem for the operator as written: its comparator is regenerated from the source on every run and proved to be the "
+        "lexicographic order (ssp_comparator_is_lexicographic), so an edit of the tie-break breaks the check. "
         "Rational coordinates: hvQ/rankQ via a common denominator are well defined, agree with hvSpec/rankSpec on integers, rankQ satisfies the rank definition for the "
         "rational dominance, nonDominatedSort on the scaled points returns rankQ. All models are tied to the real code by exact line-by-line correspondence on generated "
         "integer point sets (2..6 objectives, ties, duplicates, dominated, collinear points, points on the boundary of the reference box, extreme magnitudes for the "
-        "sorts, the three arms of the sort switch, all k; subset selection is compared by the selected indices), each with an independent oracle in the harness."),
+        "sorts, the three arms of the sort switch, all k; subset selection is compared by the selected indices), each with an independent oracle in the harness. "
+        "Intermediate states are tied where the real code exposes them: HypervolumeCalculatorMDHOY::stream is called directly on generated reachable (region, points, "
+        "split, cover) states (ops hoys, oracle = definition on the region), ndHelperA/ndHelperB (hence sweepA, sweepB, the splits) are called directly with preset front "
+        "numbers (ops dca/dcb, the real header compiled with access control lifted, oracle = the pre/postconditions of figures 2 and 7), and the sweeps of "
+        "HypervolumeCalculator3D, HOY, HypervolumeContribution3D and the sorts are observed on every prefix of the input in sweep order."),
   note=TRUST + "executable models tied by exact correspondence + oracle only (no theorem model = spec): HypervolumeCalculatorMDHOY (Model/HOY.lean; therefore the front end and "
        "HypervolumeContributionMD in exactly 4 objectives are `_partial`), HypervolumeContribution3D (Model/Contrib3D.lean: x-y front, box lists, cutBoxesOnTheLeft/Right; compared "
        "with hvSpec S - hvSpec (S without p) on every run). These routines return only their result, so the tie of their internal states to the C++ is through the results. "
        "HypervolumeContributionMD computes exp(sum(log(ref-p))): its results are compared after rounding to the nearest integer (tolerance 1e-6), everything else exactly. "
        "Theorems are about integer coordinates and lifted to rationals by the common-denominator argument (Lemmas/Scale.lean, Lemmas/RatLift.lean); the C++ runs on doubles, the "
-       "correspondence uses integer-valued doubles. The 1e-10 tolerances in upperEnvelope are modelled as exact comparisons (quotients of small integers). The subset-selection "
-       "operator theorem is for the intended comparator `f2 < rhs.f2`; the C++ currently has `f2 < rhs.f1` (open finding F-C13-4 / C13-SSP-LEXLESS: std::sort overflow with > 16 "
-       "points of equal first coordinate); on inputs with pairwise distinct first coordinates both comparators agree, and for <= 16 points the model reproduces libstdc++'s "
-       "insertion sort under the real comparator. In the WFG model the rank-1 filter of limitSet is written as 'has no dominator'; WFG is exercised on at most 12 points. "
+       "correspondence uses integer-valued doubles. The 1e-10 tolerances in upperEnvelope are modelled as exact comparisons (quotients of small integers). Finding C13-SSP-LEXLESS (F-C13-4: comparator `f2 < rhs.f1`, std::sort overflow with > 16 points "
+       "of equal first coordinate) is fixed in /repo d62b7243. `stream` is tied and (as far as proved) specified on REACHABLE states only: objectives behind `split` are uncut; "
+       "on other states the real stream and the model agree with each other but not with the definition (the median collected for an earlier split objective falls outside "
+       "the region; example in the generator comment) - harmless in real runs by the invariant, see Lemmas/HOY*.lean. In the WFG model the rank-1 filter of limitSet is written as 'has no dominator'; WFG is exercised on at most 12 points. "
        "The switch of nonDominatedSort is modelled as n < 3^(m+1) for log(n)/log(3) < m+1 (unobservable: both branches are proved equal to rankSpec).",
   technique="Lean 4 proofs by induction / loop invariants / well-founded recursion over point lists + exact differential correspondence with the C++ (ASan/UBSan)",
   design="§6 C13, §14")
